@@ -192,6 +192,11 @@ func parseFlowDesc(flowDesc, ueIP string) (*ipFilterRule, error) {
 		}
 	}
 
+	if ipf.src.IPNet == nil || ipf.dst.IPNet == nil {
+		// "from" or "to" part is missing
+		return nil, errBadFilterDesc
+	}
+
 	parseLog = parseLog.With("ip-filter", ipf)
 	parseLog.Debugln("flow description parsed successfully")
 
